@@ -342,9 +342,66 @@ func runConfOnlyIf(c *Ctx, r *RuleRun) {
 	f := a.hasConflict
 	fn := p.FnName(f)
 	n := 0
+	isHit := func(cm Cmp) bool {
+		if cm.Y != nil || cm.Op != "true" {
+			return false
+		}
+		ex, ok := cm.X.(*ssa.Extract)
+		if !ok || ex.Index != 1 {
+			return false
+		}
+		lk, ok := ex.Tuple.(*ssa.Lookup)
+		if !ok {
+			return false
+		}
+		_, isMap := lk.X.Type().Underlying().(*types.Map)
+		return isMap
+	}
 	eachInstr(f, func(ins ssa.Instruction) {
 		ret, ok := ins.(*ssa.Return)
-		if !ok || len(ret.Results) != 1 || !isConstBool(retOperand(ret, 0), true) {
+		if !ok || len(ret.Results) != 1 {
+			return
+		}
+		// a result variable: every way it becomes true lies behind a fingerprint hit
+		if ph, isPhi := retOperand(ret, 0).(*ssa.Phi); isPhi {
+			seen := map[*ssa.Phi]bool{}
+			var walk func(q *ssa.Phi) (ok, any, unknown bool)
+			walk = func(q *ssa.Phi) (bool, bool, bool) {
+				okAll, any, unknown := true, false, false
+				if seen[q] {
+					return true, false, false
+				}
+				seen[q] = true
+				for i, e := range q.Edges {
+					pred := q.Block().Preds[i]
+					switch {
+					case isConstBool(e, false):
+					case isConstBool(e, true):
+						any = true
+						if len(pred.Instrs) == 0 || !hasFact(pred.Instrs[len(pred.Instrs)-1], isHit) {
+							okAll = false
+						}
+					default:
+						if q2, isPhi2 := e.(*ssa.Phi); isPhi2 {
+							o2, a2, u2 := walk(q2)
+							okAll = okAll && o2
+							any = any || a2
+							unknown = unknown || u2
+						} else {
+							unknown = true
+						}
+					}
+				}
+				return okAll, any, unknown
+			}
+			okAll, any, unknown := walk(ph)
+			if any && !unknown {
+				n++
+				r.Check(okAll, fn, "refusal only on a fingerprint hit", p.Pos(instrPos(ret)), "the result becomes true only behind a successful lookup of a read fingerprint in a committed write set", "a conflict is reported without a read fingerprint having been found in a committed write set: transactions are refused although nothing they read was overwritten")
+			}
+			return
+		}
+		if !isConstBool(retOperand(ret, 0), true) {
 			return
 		}
 		n++
